@@ -143,8 +143,9 @@ class World:
         w, = struct.unpack_from("<I", self.props, self.wpos)
         return c, w
 
-    def step_v(self, frame, trace=False):
-        vm = ebpfvm.VM(self.mem, self.dprog, frame, trace=trace)
+    def step_v(self, frame, trace=False, rand=None):
+        vm = ebpfvm.VM(self.mem, self.dprog, frame, trace=trace,
+                       rng=(lambda: rand) if rand is not None else None)
         try:
             ret = vm.run(20000)
             out = vm.out_packet()
@@ -207,6 +208,17 @@ def explore(world, starts, depth, res, on_step, max_states=200000,
                        c_before=c, c_after=c2 & 0xff, w_before=5 if w else 0,
                        w_after=w2, run_before=run, srun_before=srun,
                        inflight=len(frames_))
+            if ntrans % 7 == 0:
+                # with the loss simulator off (rate 0) the outcome must not
+                # depend on the kernel's random number: boundary values
+                for rv in (0, 0x10000, 0xffff0000, 0xffffffff):
+                    world.set_state(c, 5 if w else 0)
+                    r2, o2, ran2 = world.step_v(frame, rand=rv)
+                    if (r2, o2) != (ret, out):
+                        rec["random_dependence"] = (rv, r2)
+                        break
+                world.set_state(c, 5 if w else 0)
+                world.step_v(frame)
             if ntrans % k_every == 0:
                 world.set_state(c, 5 if w else 0)
                 rk, ok = world.step_k(frame)
